@@ -16,10 +16,10 @@ def catalogue(quick=True):
     """list of (kind, params) covering every transform family, mode and a few sizes"""
     out = []
     for mode in MODES5:
-        for (L, N, J) in ((4, 11, 2), (6, 16, 2)) + (() if quick else ((2, 7, 3), (8, 21, 1))):
+        for (L, N, J) in ((4, 11, 2), (6, 16, 2)) + (() if quick else ((2, 7, 3), (8, 21, 1), (10, 30, 2), (4, 3, 1), (12, 17, 1))):
             out.append(('dwt1d-fwd', dict(mode=mode, L=L, N=N, J=J)))
             out.append(('dwt1d-inv', dict(mode=mode, L=L, N=N, J=J)))
-        for (L, H, W, J) in ((4, 9, 12, 2), (6, 16, 10, 1)) + (() if quick else ((2, 5, 5, 2),)):
+        for (L, H, W, J) in ((4, 9, 12, 2), (6, 16, 10, 1)) + (() if quick else ((2, 5, 5, 2), (8, 20, 14, 2), (4, 3, 11, 1), (10, 12, 12, 1))):
             out.append(('dwt2d-fwd', dict(mode=mode, L=L, H=H, W=W, J=J)))
             out.append(('dwt2d-inv', dict(mode=mode, L=L, H=H, W=W, J=J)))
         out.append(('dwt2d-fwd', dict(mode=mode, L=4, H=9, W=12, J=2, filters='tuple4')))
@@ -44,7 +44,8 @@ def catalogue(quick=True):
         out.append(('swt', dict(mode=mode, L=4, H=8, W=16, J=2)))
         out.append(('functional-atrous', dict(mode=mode or 'periodization', L=4, H=8, W=8, dilation=2)))
     for (b, q, H, W, J) in (('near_sym_a', 'qshift_a', 10, 12, 3), ('legall', 'qshift_06', 7, 9, 2)) + \
-            (() if quick else (('antonini', 'qshift_b', 16, 16, 2), ('near_sym_b', 'qshift_d', 8, 6, 2))):
+            (() if quick else (('antonini', 'qshift_b', 16, 16, 2), ('near_sym_b', 'qshift_d', 8, 6, 2),
+                               ('near_sym_a', 'qshift_c', 12, 20, 2), ('legall', 'qshift_a', 5, 7, 3), ('antonini', 'qshift_06', 14, 10, 2))):
         for mode in ('symmetric', 'zero'):
             out.append(('dtcwt-fwd', dict(biort=b, qshift=q, H=H, W=W, J=J, mode=mode, o_dim=2, ri_dim=-1, skip=0, scales=0)))
             out.append(('dtcwt-inv', dict(biort=b, qshift=q, H=H, W=W, J=J, mode=mode, o_dim=2, ri_dim=-1, absent=0)))
@@ -64,6 +65,9 @@ def scat_catalogue(quick=True):
         for cc in (False, True):
             out.append(('scat1', dict(biort=b, H=9, W=12, combine_colour=cc)))
             out.append(('scat2', dict(biort=b, H=12, W=16, combine_colour=cc)))
+            if not quick:
+                out.append(('scat1', dict(biort=b, H=6, W=6, combine_colour=cc)))
+                out.append(('scat2', dict(biort=b, H=8, W=8, combine_colour=cc)))
     return out
 
 
